@@ -42,7 +42,7 @@ BUDGETS = {'C06': (45, 900, 10)}
 LEVELS = {'C06': 'fault_enumeration'}
 PROBES = {'C06': ['numbered_files', 'failed_rollover_before_the_append', 'restart_with_journal_of_meta_file', 'first_record_of_file', 'compressed', 'uncompressed', 'multi_write_append', 'error_at_journal', 'error_at_archive_open',
                   'error_at_archive_write', 'error_at_archive_close', 'error_at_unlink', 'torn_error', 'short_write',
-                  'kill_points', 'kill_torn_points', 'kill_with_journal', 'restart_refused', 'real_kill_crosscheck', 'archive_name_with_glob_characters', 'second_run_close']}
+                  'kill_points', 'kill_torn_points', 'kill_with_journal', 'restart_refused', 'real_kill_crosscheck', 'archive_name_with_glob_characters', 'second_run_close', 'fresh_start_over_existing_archive', 'kill_while_undoing_a_failed_append']}
 INFO = {'C06': {
     'rule': 'workload = (compression, 0..5 earlier records, record to append with block of 0..40000 bytes); per workload '
             'EVERY file operation of the append is a fault position for the I/O-error clause and every operation '
@@ -177,6 +177,109 @@ def _second_run_close(tape, r, rng, compress, digests, sandbox, tmpdir, idrng, w
     return r
 
 
+def _fresh_start_over_existing(tape, r, rng, compress, digests, sandbox, tmpdir, idrng, workload):
+    """A run WITHOUT --warc-append over the archive an earlier run left: the file is started afresh and its first record (the
+    warcinfo record) appended. I/O error / kill at every file operation of that start. The archive before this append is the
+    emptied file: after an I/O error it must be that (or, if the emptying itself failed, still the old archive), with no
+    journal; after a kill it is a valid record sequence or a journal names a length to which truncation gives one."""
+    r.sub = 'fresh-start-over-existing'
+    r.probes['fresh_start_over_existing_archive'] += 1
+    max_size = 10 ** 9 if tape.chance(1, 2, 'fso.max_size') else None
+    prefix = os.path.join(sandbox, 'a')
+    name = ('a-00000' if max_size else 'a') + ('.warc.gz' if compress else '.warc')
+
+    def params():
+        return WARCRecorderParams(compress=compress, temp_dir=tmpdir, log=False, digests=digests, cdx=False, software_string='verif-sim/1',
+                                  max_size=max_size, appending=False)
+    rec1 = WARCRecorder(prefix, params=params())
+    for i in range(tape.between(1, 3, 'fso.n1')):
+        x = make_record(random.Random(rng.randrange(1 << 30)), tape.choice((10, 500, 9000), 'fso.size'), i)
+        rec1.set_length_and_maybe_checksums(x)
+        rec1.write_record(x)
+    old = simfs.snapshot_dir(sandbox)
+    stale = old[name]
+    workload.update({'variant': 'fresh_start_over_existing', 'stale_bytes': len(stale), 'numbered': bool(max_size)})
+
+    def start(plan=None, observer=None):
+        simfs.restore_dir(sandbox, old)
+        idrng.seed(6060)
+        f = simfs.SimFS(sandbox)
+        f.plan = plan or {}
+        f.observer = observer
+        err = None
+        with f:
+            try:
+                WARCRecorder(prefix, params=params())
+            except OSError as e:
+                err = e
+            _collect()
+        return f, err
+    kills = []
+
+    def observer(k, kind, path, data):
+        snap = simfs.snapshot_dir(sandbox)
+        kills.append((k, kind, 'before', snap))
+        if kind == 'write' and data and len(data) > 1 and os.path.basename(path) == name:
+            s2 = dict(snap)
+            s2[name] = s2.get(name, b'') + data[:len(data) // 2]
+            kills.append((k, kind, 'torn', s2))
+    f0, err0 = start(observer=observer)
+    if err0 is not None:
+        r.violate(P, 'setup', 'fault-free-start-failed', repr(err0))
+        return r
+    kills.append((f0.ops, 'end', 'after-last-op', simfs.snapshot_dir(sandbox)))
+    oplog = list(f0.log)
+    nops = f0.ops
+    r.nontrivial = nops >= 4
+    workload['ops'] = [(o[1], o[2]) for o in oplog]
+
+    def judge_state(snap, pos, killed):
+        data = snap.get(name, b'')
+        jn = snap.get(name + '-wpullinc')
+        okv, recs, errs = valid_sequence(data, compress)
+        if killed:
+            if okv:
+                return
+            off = None
+            if jn is not None:
+                try:
+                    lines = jn.decode('ascii').split('\n')
+                    if lines[0] == 'wpull-journal-version:1' and lines[1].startswith('offset:'):
+                        off = int(lines[1][7:])
+                except Exception:
+                    off = None
+            if off is None:
+                r.violate(P, 'kill-unrecoverable', 'fresh-start:no-usable-journal', 'kill at %s: the archive is not a record sequence (%r) and no journal names a length' % (pos, errs[:1]))
+            elif not valid_sequence(data[:off], compress)[0] or off > len(data):
+                r.violate(P, 'kill-unrecoverable', 'fresh-start:journal-offset', 'kill at %s: the journal names offset %d (the emptied file has length 0, the old archive had %d); '
+                          'truncating the %d bytes on disk to it does not give a record sequence' % (pos, off, len(stale), len(data)))
+        else:
+            if jn is not None:
+                r.violate(P, 'io-error-journal-left', 'fresh-start', '%s: a journal remains after the failed start' % pos)
+            if data not in (b'', stale):
+                r.violate(P, 'io-error-archive-damaged', 'fresh-start:' + ('not-a-record-sequence' if not okv else 'neither-emptied-nor-old'),
+                          '%s: the archive holds %d bytes that are neither the emptied file nor the old archive (%d bytes): %r' % (pos, len(data), len(stale), errs[:1]))
+    for k, kind, where, snap in kills:
+        r.probes['kill_points' if where != 'torn' else 'kill_torn_points'] += 1
+        r.faults['kill'] += 1
+        judge_state(snap, 'start op%d/%d %s %s' % (k, nops, kind, where), True)
+    for k, kind, fname, n in oplog:
+        if kind == 'unlink':
+            continue
+        for fault in (('error', 28), ('torn-error', 7, 5)):
+            if fault[0] == 'torn-error' and (kind != 'write' or not isinstance(n, int) or n < 2):
+                continue
+            f, err = start({k: fault})
+            r.faults['io.' + fault[0]] += 1
+            if err is None:
+                r.violate(P, 'io-error-swallowed', 'fresh-start', 'start op%d %s:%s %s: the recorder started although the operation failed' % (k, kind, fname, fault[0]))
+                continue
+            judge_state(simfs.snapshot_dir(sandbox), 'start op%d/%d %s:%s %s' % (k, nops, kind, fname, fault[0]), False)
+    r.workload = workload
+    r.sample = {'workload': workload, 'violations': [v.cls + ':' + v.sig for v in r.violations][:6]}
+    return r
+
+
 def run(tape, prop, tier):
     r = Result()
     rng = tape.subrng('rng')
@@ -200,6 +303,8 @@ def run(tape, prop, tier):
     try:
         if tape.chance(1, 6, 'variant.second_run_close'):
             return _second_run_close(tape, r, rng, compress, digests, sandbox, tmpdir, idrng, workload)
+        if tape.chance(1, 8, 'variant.fresh_start_over_existing'):
+            return _fresh_start_over_existing(tape, r, rng, compress, digests, sandbox, tmpdir, idrng, workload)
         # with --warc-max-size the files are numbered (a-00000.warc.gz ...); the limit itself is never reached here
         max_size = 10 ** 9 if tape.chance(1, 3, 'max_size') else None
         workload['max_size'] = bool(max_size)
@@ -403,6 +508,24 @@ def run(tape, prop, tier):
                 r.violate(P, 'harness-kill-model', 'snapshot-differs-from-real-kill', 'op %d %s: files differing %r (real %r, model %r)'
                           % (k, kind, diff, {n: len(real.get(n, b'')) for n in diff}, {n: len(snap.get(n, b'')) for n in diff}))
 
+        def recoverable(snap):
+            """kill clause: a valid old/new archive, or a journal naming the pre-append length under which the old archive lies"""
+            data = snap.get(arch_name, b'')
+            okv, _, errsv = valid_sequence(data, compress)
+            if okv and (data == A0 or is_new(data)):
+                return None
+            jn = snap.get(journal_name)
+            if jn is None:
+                return 'archive is %s and no journal exists' % ('neither the old nor the new record sequence' if okv else 'not a record sequence %r' % (errsv[:1],))
+            try:
+                lines = jn.decode('ascii').split('\n')
+                off = int(lines[1][7:]) if lines[0] == 'wpull-journal-version:1' and lines[1].startswith('offset:') else None
+            except Exception:
+                off = None
+            if off != len(A0) or data[:off] != A0:
+                return 'journal offset %r does not lead back to the old archive (%d bytes)' % (off, len(A0))
+            return None
+
         # ---- I/O-error clause (enumerated)
         for k, kind, name, n in oplog:
             variants = [('error', errno.ENOSPC if k % 2 else errno.EIO)]
@@ -410,7 +533,21 @@ def run(tape, prop, tier):
                 variants.append(('torn-error', n // 2, errno.ENOSPC))
                 variants.append(('short', max(1, n // 3)))
             for act in variants:
-                f, err = attempt(plan={k: act})
+                # the process may also die while the failed append is being undone: snapshots at every operation after the
+                # injected error are judged by the kill clause (the journal must outlive the damage it describes)
+                after_fault = []
+
+                def obs_after(kk, kind2, path2, data2, k=k):
+                    if kk > k:
+                        after_fault.append((kk, kind2, os.path.basename(path2), simfs.snapshot_dir(sandbox)))
+                f, err = attempt(plan={k: act}, observer=obs_after if act[0] != 'short' else None)
+                for kk, kind2, name2, snap2 in after_fault:
+                    why = recoverable(snap2)
+                    r.probes['kill_while_undoing_a_failed_append'] += 1
+                    if why:
+                        r.violate(P, 'kill-unrecoverable', 'after-io-error:%s:%s' % (kind2, 'JOURNAL' if name2 == journal_name else ('ARCH' if name2 == arch_name else 'other')),
+                                  'I/O error at op%d (%s:%s %s), then the process dies before op%d (%s:%s): %s' % (k, kind, name, act[0], kk, kind2, name2, why))
+                        break
                 after = simfs.snapshot_dir(sandbox)
                 data = after.get(arch_name, b'')
                 where = 'JOURNAL' if name == journal_name else ('ARCH' if name == arch_name else name)
